@@ -13,7 +13,8 @@ ID = "C23"
 LEVEL = "exploration"
 RULE = (
     "Source repositories are built by running 1-3 generated programs (C01 grammar with failures, "
-    "duplicates, apply_tags, File results nested in lists, partial-task values) under the harness "
+    "duplicates, apply_tags, File results nested in lists, partial-task values; also one shallow-validity "
+    "workflow executed twice, of which only the fully cached second execution is transferred) under the harness "
     "executor, followed by a generated history of tag add/update/rm operations (as the CLI issues "
     "them) on executions, jobs and values; with a pre-sync the history is split around a first "
     "transfer, so that the later transfer carries only newer edits of tags the destination already holds. A generated root selection (all executions or a subset of "
@@ -88,6 +89,17 @@ def cases(draw):
     # deliberately not "reachable" from it)
     roots = draw(st.sampled_from(["all", "all", "subset", "subset2"]))
     route = draw(st.sampled_from(["push", "export"]))
+    if draw(st.integers(0, 3)) == 0:
+        # the same shallow-validity workflow executed twice: the second execution consists of one
+        # cached job whose call node's subtree is reachable through call edges only; only that
+        # execution is transferred
+        v = draw(st.integers(0, 3))
+        # (the tasks beneath the shallow call are other tasks than the ones the cached jobs name)
+        deep = ["task", ["op", "add", ["task", ["task", ["lit", ["int", v]], {}, {"t": "xnode"}], {}, {"t": "onode"}], ["lit", ["int", 1]]],
+                {}, {"check_valid": "shallow"}]
+        prog = ["list", [deep]]
+        return {"progs": [prog, prog], "tagops": [list(t) for t in tagops][:2], "roots": "subset", "root_pick": 1,
+                "route": route, "presync": False, "repeat": draw(st.booleans())}
     return {"progs": progs, "tagops": [list(t) for t in tagops], "roots": roots, "root_pick": draw(st.integers(0, 10)),
             "route": route, "presync": draw(st.booleans()), "repeat": draw(st.booleans())}
 
